@@ -18,6 +18,7 @@ TRUSTED_BASE = [
     "z3 (QF_LRA / QF_NRA) with cvc5 taking z3's unknowns",
     "numpy object-array semantics (reshape, cumsum, flip, indexing, broadcasting) are numpy's own; only comparison-based primitives (clip, max, where, sign, sort, argsort, argmin) are modelled (If-terms / forks)",
     "tl.solve by contract (A x = b for the returned x)",
+    "truncated_svd by contract (C05) and the spectral lemmas: prox of t*nuclear norm = U diag(soft(S, t)) V; polar factor U V = nearest matrix with orthonormal columns / rows",
 ]
 ASSUMPTIONS = [
     "reals, not floats (A1)",
@@ -26,7 +27,7 @@ ASSUMPTIONS = [
     "firm non-expansiveness is not checked directly: it follows from 'exact projection onto a closed convex set / prox of a convex function' (lemma)",
 ]
 QUANTIFICATION = "forall real entries and parameters; enumerated: operator, length n, number of columns, k"
-EXPLANATION = "Output terms of the real operator vs. the optimality conditions of its prox problem, decided by z3."
+EXPLANATION = "Output terms of the real operator vs. the optimality conditions of its prox problem, decided by z3; spectral operators and normalised sparsity against their callees' contracts (all sizes, canonical form)."
 
 
 def _vec(I, k="v"):
@@ -208,6 +209,129 @@ def obligations(tier):
             add(f"proximal_operator({kind})", f"matrix {shape[0]}x{shape[1]}", dict(v=shape), lambda I, kind=kind, par=par: px.proximal_operator(I["v"], **{kind: par}),
                 lambda I, out, shape=shape: [("the result has the shape of the input", tuple(D.lift_array(out).shape) == shape)],
                 dict(operator=kind, shape=f"{shape[0]}x{shape[1]}"), "matrix in, matrix of the same shape out", check_domain=False)
+    # ====================================================================== spectral operators (E1-generic, all sizes and entries): truncated_svd and the
+    # entrywise soft-thresholding enter by contract (C05 resp. the obligations above); proved is what the wrapper does with them
+    from ..oblig import GOb
+    from ..symint import atom, SInt, current_ctx
+    from ..iterative import stubbed, real_dtype
+    from .. import gtensor as G
+    import numpy as np
+    n0, n1 = atom("n0"), atom("n1")
+
+    def ent(cond):
+        ctx = current_ctx()
+        return bool(cond if isinstance(cond, bool) else (ctx.entails(cond) if ctx else cond))
+
+    def spectral_stubs(S, rec):
+        def tsvd(matrix, n_eigenvecs=None, **kw):
+            rec.append(dict(op="truncated_svd", matrix=matrix, n_eigenvecs=n_eigenvecs, kw=dict(kw)))
+            if S.name == "sym":
+                a, b = matrix.shape
+                kq = n_eigenvecs
+                full = ent(SInt.lift(kq) == a) or ent(SInt.lift(kq) == b)    # the thin SVD with ALL min(shape) triplets: exact, and the factor on the short side is square orthogonal
+                within = ent(SInt.lift(kq) <= a) and ent(SInt.lift(kq) <= b)
+                out = (G.opaque_tensor("TSU", [a, kq], matrix.dtype, ortho_axis=(2 if ent(SInt.lift(kq) == a) else 0) if within else None),
+                       G.opaque_tensor("TSS", [kq], real_dtype(matrix), nonneg=True),
+                       G.opaque_tensor("TSV", [kq, b], matrix.dtype, ortho_axis=(2 if ent(SInt.lift(kq) == b) else 1) if within else None))
+                if full and within:
+                    G.register_factorisation(tuple(G.name_of(o) for o in out), matrix)
+            else:
+                U, s_, V = np.linalg.svd(matrix, full_matrices=False)
+                out = tuple(S.record(nm, o) for nm, o in zip(("TSU", "TSS", "TSV"), (U[:, :n_eigenvecs], s_[:n_eigenvecs], V[:n_eigenvecs])))
+            rec[-1]["out"] = out
+            return out
+        def soft(tensor, threshold):
+            rec.append(dict(op="soft_thresholding", tensor=tensor, threshold=threshold))
+            out = G.opaque_tensor("SOFT", list(tensor.shape), tensor.dtype, nonneg=True) if S.name == "sym" else S.record("SOFT", np.sign(tensor) * np.maximum(np.abs(tensor) - threshold, 0))
+            rec[-1]["out"] = out
+            return out
+        return dict(tsvd=tsvd, soft=soft)
+
+    for shape_case, sp_pre in {"tall": lambda I: [n1 <= n0], "wide": lambda I: [n0 <= n1]}.items():
+        def setup(S):
+            return dict(_S=S, M=S.input("M", [n0, n1]))
+        def call_svt(I):
+            S = I["_S"]
+            rec = []
+            st = spectral_stubs(S, rec)
+            with stubbed(tl, truncated_svd=st["tsvd"]), stubbed(px, soft_thresholding=st["soft"]):
+                out = px.svd_thresholding(I["M"], 0.375)
+            return dict(out=out, rec=rec)
+        def post_svt(S, I, r, shape_case=shape_case):
+            a, b = S.shape(I["M"])
+            svds = [c for c in r["rec"] if c["op"] == "truncated_svd"]
+            softs = [c for c in r["rec"] if c["op"] == "soft_thresholding"]
+            out = [("one SVD and one soft-thresholding", [len(svds), len(softs)], [1, 1])]
+            if len(svds) != 1 or len(softs) != 1:
+                return out
+            U, s_, V = svds[0]["out"]
+            kmin = b if shape_case == "tall" else a
+            out += [("the SVD is taken of the matrix itself, with all min(shape) singular triplets", [svds[0]["matrix"], svds[0]["n_eigenvecs"]], [I["M"], kmin]),
+                    ("the singular values - and nothing else - are soft-thresholded with the given threshold", [softs[0]["tensor"], softs[0]["threshold"]], [s_, 0.375]),
+                    ]
+            if len(S.shape(softs[0]["out"])) == 1:   # (anything else already fails the clause above)
+                out.append(("result = U diag(soft(S, t)) V (the prox of t*nuclear norm, by the spectral lemma)", r["out"], S.einsum("ir,r,rj->ij", U, softs[0]["out"], V)))
+            return out
+        obs.append(GOb(PID, f"{PID}/tenalg.proximal:svd_thresholding/U diag(soft(S, t)) V of the full thin SVD[{shape_case}]", "tensorly.tenalg.proximal:svd_thresholding", setup, call_svt, post_svt, tenalg="core",
+                       instance=dict(shape=shape_case), clause="singular-value thresholding: full thin SVD of the input, thresholded singular values, recomposed", forall=["matrix sizes", "entries"], enumerated=["tall / wide"], assumptions=sp_pre))
+        def call_pr(I):
+            S = I["_S"]
+            rec = []
+            st = spectral_stubs(S, rec)
+            with stubbed(tl, truncated_svd=st["tsvd"]):
+                out = px.procrustes(I["M"])
+            return dict(out=out, rec=rec)
+        def post_pr(S, I, r, shape_case=shape_case):
+            a, b = S.shape(I["M"])
+            svds = [c for c in r["rec"] if c["op"] == "truncated_svd"]
+            out = [("one SVD", len(svds), 1)]
+            if len(svds) != 1:
+                return out
+            U, s_, V = svds[0]["out"]
+            P = r["out"]
+            kmin = b if shape_case == "tall" else a
+            out += [("the SVD is taken of the matrix itself, with all min(shape) singular triplets", [svds[0]["matrix"], svds[0]["n_eigenvecs"]], [I["M"], kmin]),
+                    ("result = U V (the polar factor: nearest matrix with orthonormal columns / rows, by the Procrustes lemma)", P, S.einsum("ir,rj->ij", U, V)),
+                    ("shape of the input", list(S.shape(P)), [a, b])]
+            if shape_case == "tall":
+                out.append(("feasible: orthonormal columns, Pᴴ P = I", S.einsum("ia,ib->ab", S.conj(P), P), S.eye(b)))
+            else:
+                out.append(("feasible: orthonormal rows, P Pᴴ = I", S.einsum("aj,bj->ab", P, S.conj(P)), S.eye(a)))
+            out.append(("the matrix is P times a symmetric positive semi-definite factor (polar decomposition): M = P (Vᴴ diag(S) V)" if shape_case == "tall" else
+                        "the matrix is a symmetric positive semi-definite factor times P (polar decomposition): M = (U diag(S) Uᴴ) P",
+                        I["M"], S.einsum("il,rl,r,rj->ij", P, S.conj(V), s_, V) if shape_case == "tall" else S.einsum("ir,r,lr,lj->ij", U, s_, S.conj(U), P)))
+            return out
+        obs.append(GOb(PID, f"{PID}/tenalg.proximal:procrustes/polar factor U V of the full thin SVD ∧ feasible[{shape_case}]", "tensorly.tenalg.proximal:procrustes", setup, call_pr, post_pr, tenalg="core",
+                       instance=dict(shape=shape_case), clause="Procrustes: polar factor of the input, orthonormal columns (tall) / rows (wide), M = P·(psd factor)", forall=["matrix sizes", "entries"], enumerated=["tall / wide"], assumptions=sp_pre))
+
+    # ---------------------------------------------------------------------- normalised sparsity = hard thresholding (its own obligations above), then division by the
+    # Frobenius norm of the WHOLE thresholded array: all sizes, entries and sparsity levels; vectors and matrices
+    for nd in (1, 2):
+        def setup(S, nd=nd):
+            return dict(_S=S, v=S.input("v", [n0, n1][:nd]), k=atom("k"))
+        def call_ns(I):
+            S = I["_S"]
+            rec = []
+            def hard(tensor, number_of_non_zero):
+                rec.append(dict(tensor=tensor, k=number_of_non_zero))
+                out = G.opaque_tensor("HARD", list(tensor.shape), tensor.dtype) if S.name == "sym" else S.record("HARD", np.where(np.argsort(np.argsort(-np.abs(np.ravel(tensor)), kind="stable"), kind="stable").reshape(np.shape(tensor)) < int(number_of_non_zero), tensor, 0.0))
+                rec[-1]["out"] = out
+                return out
+            with stubbed(px, hard_thresholding=hard):
+                out = px.normalized_sparsity_prox(I["v"], I["k"])
+            return dict(out=out, rec=rec)
+        def post_ns(S, I, r):
+            out = [("hard thresholding runs once, on the input, at the requested sparsity level", [len(r["rec"])] + [r["rec"][0]["tensor"], r["rec"][0]["k"]] if r["rec"] else [0], [1, I["v"], I["k"]])]
+            if len(r["rec"]) != 1:
+                return out
+            H = r["rec"][0]["out"]
+            # (unit norm follows: ||result|| * ||H|| = ||H||, H not zero; the quotient of a sum by itself is outside the canonical form's cancellation rules, so that
+            #  consequence is left to the lemma and to the native survey)
+            out += [("result * ||H|| = H: the thresholded array divided by its Frobenius norm (support and signs of H kept)", r["out"] * S.sqrt(S.sumsq(H)), H)]
+            return out
+        obs.append(GOb(PID, f"{PID}/tenalg.proximal:normalized_sparsity_prox/hard-thresholded input divided by its Frobenius norm[{'vector' if nd == 1 else 'matrix'}]", "tensorly.tenalg.proximal:normalized_sparsity_prox", setup, call_ns, post_ns, tenalg="core",
+                       instance=dict(input="vector" if nd == 1 else "matrix"), clause="normalised sparsity: H / ||H|| with H the hard-thresholded input", forall=["sizes", "entries", "sparsity level"], enumerated=["vector / matrix"], side_nonzero=True))
+
     # ====================================================================== bounded stand-in (never counted as proved): the proofs above are size-bounded
     # (n <= 3, 4 thorough); the native survey compares every operator with an independent reference at lengths 1-8 and scales 1e-3 .. 1e3
     from .c09 import BoundedOb
